@@ -920,6 +920,10 @@ var eventPrefixes = []string{"callfn", "call", "hook", "lock", "unlock", "tryloc
 
 // normEventName turns the contract spelling `call.F` into the internal event name `call:F`.
 func normEventName(n string) string {
+	// `.ANY` is the Go-parsable spelling of the `.*` wildcard
+	if strings.HasSuffix(n, ".ANY") {
+		n = strings.TrimSuffix(n, "ANY") + "*"
+	}
 	for _, p := range eventPrefixes {
 		if strings.HasPrefix(n, p+".") {
 			return p + ":" + n[len(p)+1:]
@@ -935,7 +939,7 @@ func (e *Env) resolveEventName(n string) string {
 	// prefix alias: `sub=NewSubscriber()` turns sub.Add into NewSubscriber().Add
 	if i := strings.Index(n, "."); i > 0 {
 		if a, ok := e.Alias[n[:i]]; ok {
-			return a + n[i:]
+			return normEventName(a + n[i:])
 		}
 	}
 	return normEventName(n)
